@@ -191,89 +191,126 @@ func runC15Scanline(c *Ctx) {
 	}
 	problem, undec := "", ""
 	models := 0
-	k4enumerate(keys, []float64{0, 1, 2, 3, 4}, nil, func(m *Model) bool {
-		lo, hi := math.Inf(1), math.Inf(-1)
-		for i := 0; i < npts; i++ {
-			lo, hi = math.Min(lo, m.Num[keys[i]]), math.Max(hi, m.Num[keys[i]])
+	// a hole of two modelled vertices strictly inside the shell's height range joins the model in a
+	// second pass: its vertices count for the scan-line height like the shell's
+	const nhole = 2
+	holeKeys := []string{"H[1]", "H[3]"}
+	for _, withHole := range []bool{false, true} {
+		allKeys := append([]string{}, keys...)
+		if withHole {
+			allKeys = append(allKeys, holeKeys...)
 		}
-		if lo == hi {
-			return true // a polygon has positive height
-		}
-		mid := (lo + hi) / 2
-		models++
-		m.Missing = map[string]bool{}
-		it := &k4interp{p: c.P, m: m, mem: map[string]k4val{}, inline: inl}
-		for i := 0; i < npts; i++ {
-			it.mem[fmt.Sprintf("F[%d]", 2*i)] = k4val{kind: 2, f: float64(10 + i)}
-			it.mem[keys[i]] = k4val{kind: 2, f: m.Num[keys[i]]}
-		}
-		it.mem["$0.rings"] = k4val{kind: 8, s: "R", ln: 1, cp: 1}
-		it.mem["R[0].seq.floats"] = k4val{kind: 8, s: "F", ln: 2 * npts, cp: 2 * npts}
-		it.mem["R[0].seq.ctype"] = k4val{kind: 2, f: 0}
-		it.answer = func(key string, isBool bool) (k4val, bool) {
-			// every segment is usable and none meets the bisector: the intercept list stays empty
-			if isBool && strings.HasPrefix(key, "geom.getLine(") {
-				return k4val{kind: 1, b: true}, true
+		k4enumerate(allKeys, []float64{0, 1, 2, 3, 4}, nil, func(m *Model) bool {
+			lo, hi := math.Inf(1), math.Inf(-1)
+			for i := 0; i < npts; i++ {
+				lo, hi = math.Min(lo, m.Num[keys[i]]), math.Max(hi, m.Num[keys[i]])
 			}
-			if isBool && strings.HasPrefix(key, "geom.(line).intersectLine(") && strings.HasSuffix(key, ".empty") {
-				return k4val{kind: 1, b: true}, true
+			if lo == hi {
+				return true // a polygon has positive height
 			}
-			if !isBool && strings.HasPrefix(key, "len(geom.sortAndUniquifyFloats(") {
-				return k4val{kind: 2, f: 0}, true
+			if withHole {
+				for _, hk := range holeKeys {
+					if m.Num[hk] <= lo || m.Num[hk] >= hi {
+						return true // a hole lies inside its shell
+					}
+				}
 			}
-			return k4val{}, false
-		}
-		_, err := it.call(f, []k4val{{kind: 3, s: "$0"}}, nil)
-		if err != nil {
-			undec = fmt.Sprintf("%v %s", err, missingList(m))
-			return false
-		}
-		// the bisector: second argument of every intersectLine call
-		var ys []float64
-		for _, k := range it.calls {
-			if !strings.HasPrefix(k, "geom.(line).intersectLine(") {
-				continue
+			mid := (lo + hi) / 2
+			models++
+			m.Missing = map[string]bool{}
+			it := &k4interp{p: c.P, m: m, mem: map[string]k4val{}, inline: inl}
+			for i := 0; i < npts; i++ {
+				it.mem[fmt.Sprintf("F[%d]", 2*i)] = k4val{kind: 2, f: float64(10 + i)}
+				it.mem[keys[i]] = k4val{kind: 2, f: m.Num[keys[i]]}
 			}
-			args := splitTopLevel(strings.TrimSuffix(strings.TrimPrefix(k, "geom.(line).intersectLine("), ")"))
-			if len(args) != 2 {
-				undec = "cannot read the bisector from " + k
+			it.mem["$0.rings"] = k4val{kind: 8, s: "R", ln: 1, cp: 1}
+			it.mem["R[0].seq.floats"] = k4val{kind: 8, s: "F", ln: 2 * npts, cp: 2 * npts}
+			it.mem["R[0].seq.ctype"] = k4val{kind: 2, f: 0}
+			if withHole {
+				it.mem["$0.rings"] = k4val{kind: 8, s: "R", ln: 2, cp: 2}
+				for i := 0; i < nhole; i++ {
+					it.mem[fmt.Sprintf("H[%d]", 2*i)] = k4val{kind: 2, f: float64(10.25 + float64(i)/2)}
+					it.mem[holeKeys[i]] = k4val{kind: 2, f: m.Num[holeKeys[i]]}
+				}
+				it.mem["R[1].seq.floats"] = k4val{kind: 8, s: "H", ln: 2 * nhole, cp: 2 * nhole}
+				it.mem["R[1].seq.ctype"] = k4val{kind: 2, f: 0}
+			}
+			it.answer = func(key string, isBool bool) (k4val, bool) {
+				// every segment is usable and none meets the bisector: the intercept list stays empty
+				if isBool && strings.HasPrefix(key, "geom.getLine(") {
+					return k4val{kind: 1, b: true}, true
+				}
+				if isBool && strings.HasPrefix(key, "geom.(line).intersectLine(") && strings.HasSuffix(key, ".empty") {
+					return k4val{kind: 1, b: true}, true
+				}
+				if !isBool && strings.HasPrefix(key, "len(geom.sortAndUniquifyFloats(") {
+					return k4val{kind: 2, f: 0}, true
+				}
+				return k4val{}, false
+			}
+			_, err := it.call(f, []k4val{{kind: 3, s: "$0"}}, nil)
+			if err != nil {
+				undec = fmt.Sprintf("%v %s", err, missingList(m))
 				return false
 			}
-			for _, p := range []string{".a.Y", ".b.Y"} {
-				v, err := it.lookup(args[1]+p, nil0)
-				if err != nil || v.kind != 2 {
-					undec = "cannot read the bisector height from " + k
+			// the bisector: second argument of every intersectLine call
+			var ys []float64
+			for _, k := range it.calls {
+				if !strings.HasPrefix(k, "geom.(line).intersectLine(") {
+					continue
+				}
+				args := splitTopLevel(strings.TrimSuffix(strings.TrimPrefix(k, "geom.(line).intersectLine("), ")"))
+				if len(args) != 2 {
+					undec = "cannot read the bisector from " + k
 					return false
 				}
-				ys = append(ys, v.f)
+				for _, p := range []string{".a.Y", ".b.Y"} {
+					v, err := it.lookup(args[1]+p, nil0)
+					if err != nil || v.kind != 2 {
+						undec = "cannot read the bisector height from " + k
+						return false
+					}
+					ys = append(ys, v.f)
+				}
 			}
-		}
-		if len(ys) == 0 {
-			undec = "no intersectLine call observed"
-			return false
-		}
-		match, next := false, math.Inf(1)
-		for i := 0; i < npts; i++ {
-			y := m.Num[keys[i]]
-			if y == mid {
-				match = true
-			}
-			if y > mid && y < next {
-				next = y
-			}
-		}
-		want := mid
-		if match {
-			want = (mid + next) / 2
-		}
-		for _, y := range ys {
-			if y != want {
-				problem = fmt.Sprintf("with vertex heights (%v, %v, %v), envelope mid height %v, the scan line is placed at Y=%v, expected %v", m.Num[keys[0]], m.Num[keys[1]], m.Num[keys[2]], mid, y, want)
+			if len(ys) == 0 {
+				undec = "no intersectLine call observed"
 				return false
 			}
+			match, next := false, math.Inf(1)
+			heights := []float64{}
+			for i := 0; i < npts; i++ {
+				heights = append(heights, m.Num[keys[i]])
+			}
+			if withHole {
+				for _, hk := range holeKeys {
+					heights = append(heights, m.Num[hk])
+				}
+			}
+			for _, y := range heights {
+				if y == mid {
+					match = true
+				}
+				if y > mid && y < next {
+					next = y
+				}
+			}
+			want := mid
+			if match {
+				want = (mid + next) / 2
+			}
+			for _, y := range ys {
+				if y != want {
+					problem = fmt.Sprintf("with vertex heights %v (shell first, then the hole's, if any), envelope mid height %v, the scan line is placed at Y=%v, expected %v: every ring's vertices count", heights, mid, y, want)
+					return false
+				}
+			}
+			return true
+		})
+		if problem != "" || undec != "" {
+			break
 		}
-		return true
-	})
+	}
 	construct := "scan-line height"
 	switch {
 	case undec != "":
